@@ -85,6 +85,12 @@ def dfs_plans(tier, sticky):
     p["awaiton_run_hardstop2"] = "X1:h O0:RU1:v1:d O1:RU1:v2:d C0:F:m:an1_0+1.cur"
     p["co_run_hardstop"] = "X1:h O0:RU1:v7:d C0:F:m:cc0.cur"
     p["on_hardstop"] = "X1:h C0:F:m:cur.on1.cur"
+    # coroutines with different executors of their own co_await one pending shared state bound to a third executor, then
+    # ask CurrentExecutor() and Yield: every one of them inherits the state's executor, the state keeps it (S5)
+    p["shared_exec_2"] = "X1:q X2:q X3:q O0:SO3:v7:l C0:F:m:on1.co0.cur.y.cur C1:F:m:on2.co0.cur.yy.cur D"
+    p["shared_exec_2_await"] = "X1:q X2:q X3:q O0:SO3:v7:l C0:F:m:on1.ai0.cur.yy.cur C1:S:m:on2.cc0.cur.y.cur D"
+    p["shared_exec_2_run"] = "X1:q X2:q O0:RS2:v7:d C0:F:m:on1.co0.cur.y.cur C1:F:m:co0.cur.yy.cur"
+    p["shared_exec_2_fiber"] = "X1:q X2:q O0:SO2:v7:d C0:F:m:on1.co0.cur C1:F:m:co0.cur.y D"
     # several coroutines on one SharedFuture
     p["shared_2_main"] = "O0:S:v7:d C0:F:m:co0 C1:F:m:co0"
     p["shared_2_err"] = "O0:S:e3:d C0:F:m:co0 C1:S:m:cc0"
